@@ -179,22 +179,38 @@ def c17_2(ctx: Ctx) -> RuleResult:
                 n_ = t[2][0]
                 first = n_
                 last = None
-            seen = list(deep_subterms(ctx, m, first, 4)) if first is not None else []
+            # the cases of the first dimension: 1 exactly where `shared` holds, the ensemble size where it does not
+            # (whether the choice is a conditional expression at the draw, an argument of a helper, or separate call sites)
+            from ..util import context_cases
 
-            def is_count_choice(hy):
-                h_, y = hy
-                if y[0] != "ifexp":
-                    return False
-                cnd, a, b = y[1], y[2], y[3]
-                neg = False
-                while cnd[0] == "unary" and cnd[1] == "not":
-                    cnd, neg = cnd[2], not neg
-                if not (cnd[0] == "attr" and cnd[2] == "shared"):
-                    return False
-                one, many = (b, a) if neg else (a, b)
-                return one == ("const", 1) and any(yy[0] == "attr" and yy[2] == "size" and "realizations" in show(yy) for _g, yy in deep_subterms(ctx, h_, many, 3))
+            if kind == "rvs":
+                sz = next((k.value for k in call.keywords if k.arg == "size"), None)
+                cand_nodes = [sz.elts[0]] if isinstance(sz, (ast.Tuple, ast.List)) and sz.elts else []
+            else:
+                n0 = call.args[0] if call.args else None
+                cand_nodes = [n0.left, n0.right] if isinstance(n0, ast.BinOp) and isinstance(n0.op, ast.Mult) else ([n0] if n0 is not None else [])
 
-            ok = any(is_count_choice(y) for y in seen)
+            def shared_pol(conds):
+                for a_, p_ in conds:
+                    if a_[0] == "attr" and a_[2] == "shared":
+                        return p_
+                return None
+
+            def count_ok(node_):
+                cases = context_cases(ctx, m, node_)
+                if not cases:
+                    return False
+                for conds, leaf in cases:
+                    sp = shared_pol(conds)
+                    if sp is True and leaf != ("const", 1):
+                        return False
+                    if sp is False and not any(yy[0] == "attr" and yy[2] == "size" and "realizations" in show(yy) for _g, yy in deep_subterms(ctx, m, leaf, 3)):
+                        return False
+                    if sp is None:
+                        return False
+                return True
+
+            ok = any(count_ok(nd) for nd in cand_nodes)
             res.add(m, call, "the number of realizations drawn is 1 if shared else the ensemble size", ok,
                     "" if ok else f"the first sample dimension is `{show(first, 80) if first is not None else '?'}`", construct=f"{c.name}: draw count ({kind})")
             # the sample dimension: V without a mask, mask.sum() with one
@@ -223,6 +239,12 @@ def c17_2(ctx: Ctx) -> RuleResult:
                     t = X.at(m, cl)
                     axis0 = any(k == "axis" and v == ("const", 0) for k, v in t[3]) or (len(t[2]) > 2 and t[2][2] == ("const", 0))
                     count_ok = len(t[2]) > 1 and "realizations" in show(t[2][1])
+                    if not count_ok and len(cl.args) > 1:
+                        # the count may be a parameter: the ensemble size at every call site
+                        from ..util import context_cases
+
+                        cs_ = context_cases(ctx, m, cl.args[1])
+                        count_ok = bool(cs_) and all(any(yy[0] == "attr" and yy[2] == "size" and "realizations" in show(yy) for _g, yy in deep_subterms(ctx, m, leaf, 3)) for _c, leaf in cs_)
                     st_ = cl
                     while parent(st_) is not None and not isinstance(st_, ast.stmt):
                         st_ = parent(st_)
